@@ -211,9 +211,15 @@ func (r *Run) loadFindingsFile(path string) {
 		for _, tok := range strings.Fields(rest) {
 			if strings.HasPrefix(tok, "property=") {
 				fd.Prop = tok[9:]
-			} else if strings.HasPrefix(tok, "sig=") {
-				fd.Sig = tok[4:]
 			}
+		}
+		// the signature runs from "sig=" to " via=" (or the end): it may contain spaces (panic messages)
+		if k := strings.Index(rest, "sig="); k >= 0 {
+			sg := rest[k+4:]
+			if v := strings.Index(sg, " via="); v >= 0 {
+				sg = sg[:v]
+			}
+			fd.Sig = strings.TrimSpace(sg)
 		}
 		if kind == "known" && fd.Prop == r.ID && fd.Sig != "" {
 			r.known[fd.Sig] = fd
